@@ -184,12 +184,14 @@ def bayes(logp, pi, mask=None, eps=0.0):
     for idx in np.ndindex(*lead):
         for n in range(N):
             col = [logp[idx + (k, n)] for k in range(K)]
-            mx = max(col)
+            act = [col[k] for k in range(K) if mask is None or mask[idx + (k, n)]]
+            mx = max(act) if act and max(act) > -math.inf else 0.0     # shift over the active classes only
             g = []
             for k in range(K):
-                v = math.exp(col[k] - mx) * float(pi[idx + (k, n)]) if col[k] != -math.inf else 0.0
                 if mask is not None and not mask[idx + (k, n)]:
                     v = 0.0
+                else:
+                    v = math.exp(col[k] - mx) * float(pi[idx + (k, n)]) if col[k] != -math.inf else 0.0
                 g.append(v)
             s = max(sum(g), TINY)
             for k in range(K):
